@@ -169,9 +169,14 @@ pub fn gen_object(rng: &mut Rng, idx: usize, default_oti: &OtiSpec, o: &GenOpts)
         _ => None,
     };
     if o.sources && ob.cenc == CencSpec::Null && rng.chance(1, 4) {
-        ob.source = match rng.below(3) {
+        ob.source = match rng.below(4) {
             0 => SourceSpec::Cursor,
             1 => SourceSpec::Chunked(vec![1 << 20]),
+            // a stream handed over at a non-zero position, with and without MD5 (the MD5 computation rewinds it)
+            2 if !ob.data.is_empty() => {
+                ob.md5 = rng.chance(1, 2);
+                SourceSpec::ChunkedAt(vec![4096, 100], rng.range(1, ob.data.len() as u64) as usize)
+            }
             _ => SourceSpec::Cursor,
         };
     }
